@@ -3,7 +3,13 @@ SimplifySymbolNames, compared with filter + mutations of the implementation on e
 import common
 from common import w_shape, w_shapes, w_str, r_str
 
-MALFORMED = ['(let x y)', '(let xy y)', '(let (x) y)', '(let (xy) y)', '(let (()) y)', '(let ((x)) y)', '(let ((x 1) (y)) x)', '(let ((x 1 2)) (f x) extra)',
+MALFORMED = ['(define-fun f ((a Int) (b Int)) Int (- a b))(assert (= (f b a) (f 1 2) (f (f 1 2) a) (f 1) f (f)))',
+             '(define-fun c () Int 5)(define-fun c () Int 6)(assert (= c (c) (c 1)))', '(define-fun f ((a Int) (a Int)) Int (+ a a))(assert (= (f 1 2) 0))',
+             '(define-fun f (a) Int a)(assert (= (f 1) 0))', '(define-fun f (()) Int 1)(assert (= (f 1) 0))', '(define-fun f (((p q) Int)) Int (g (p q)))(assert (= (f 1) 0))',
+             '(define-fun f () Int g)(define-fun g () Int f)(assert (= f g))', '(define-fun f ((x Int)) Int (+ 1 (f x)))(assert (= (f 1) 0))',
+             '(define-fun f ((x Int)) Int (g x))(define-fun g ((y Int)) Int (h y))(define-fun h ((z Int)) Int (f z))(define-fun k ((z Int)) Int (f z))(assert (= (k 1) (g 2)))',
+             '(define-fun f ((x Int)) Int (let ((y 1)) (+ x y)))(declare-const y Int)(assert (= (f y) 0))', '(define-fun f ((x Int)) Int x)(assert (f))', '(define-fun f ((x Int)) Int 7)(assert (= (f 7) 7))',
+             '(let x y)', '(let xy y)', '(let (x) y)', '(let (xy) y)', '(let (()) y)', '(let ((x)) y)', '(let ((x 1) (y)) x)', '(let ((x 1 2)) (f x) extra)',
              '(let ((x 1)) x)', '(let (((a b) 1)) (f (a b)))', '(let ((x 1)) (let ((y x)) x))', '(let ((x (f y))) (forall ((y Int)) x))',
              '(let ((x (f y))) (match x (((c y) x))))', '(let () y)', '(let ((x y) (y 1)) (+ x y))', '(let ((x 2)) (let ((x 5)) (+ x 1)))',
              '(let ((x (+ y 1))) (let ((y 5)) (+ x y)))', '(let ((x 1) (z x)) (+ x z))', '(let ((x (g x))) (f x))', '(let ((x 1)) (lambda ((x Int)) x))',
@@ -37,7 +43,7 @@ def run(ctx, impl, model, rng, texts, max_children=9):
     smtlib, nodes = impl.smtlib, impl.nodes
     M = dict(rbc=mutators_core.ReplaceByChild(), merge=mutators_core.MergeWithChildren(), sort=mutators_core.SortChildren(),
              binred=mutators_core.BinaryReduction(), letel=mutators_smtlib.LetElimination(), erase=mutators_core.EraseNode(),
-             ssn=mutators_smtlib.SimplifySymbolNames(), letsub=mutators_smtlib.LetSubstitution())
+             ssn=mutators_smtlib.SimplifySymbolNames(), letsub=mutators_smtlib.LetSubstitution(), inline=mutators_smtlib.InlineDefinedFuns())
     calls, meta = [], []
 
     def props(m, node):
@@ -57,8 +63,19 @@ def run(ctx, impl, model, rng, texts, max_children=9):
     for text in list(texts) + MALFORMED:
         exprs = impl.parse(text)
         smtlib.collect_information(exprs)
+        # the table of definitions as collect_information recorded it (the lambdas keep their command as default argument)
+        defs, in_defs = [], set()
+        dfuns = getattr(smtlib, '__defined_functions')
+        for key, (arity, func) in dfuns.items():
+            cmd = func.__defaults__[0]
+            defs.append([w_str(cmd[1].data), [w_shape(impl.to_shape(f)) for f in cmd[2].data], w_shape(impl.to_shape(cmd[4]))])
+        for cmd in exprs:
+            if cmd.has_ident() and cmd.get_ident() == 'define-fun':
+                in_defs |= set(n.id for n in nodes.dfs(cmd))
         for node in nodes.dfs(exprs):
             sh = w_shape(impl.to_shape(node))
+            if node.id not in in_defs:       # a use site: the model does not know node identities
+                add(98, [sh, defs], 'InlineDefinedFuns', node, lambda node=node: props(M['inline'], node))
             if not node.is_leaf() and len(node) <= max_children:
                 def erase(node=node):
                     assert M['erase'].filter(node)
